@@ -83,7 +83,7 @@ type ContractDB struct {
 var clauseKinds = map[string]bool{
 	"props": true, "mode": true, "requires": true, "ensures": true, "modifies": true,
 	"loop": true, "lemma": true, "ghost": true, "panics-when": true, "search-pred": true,
-	"replay": true, "replay-reader": true, "returns": true, "callsite": true, "search": true, "reveal": true, "trusted": true, "assume": true, "unroll": true, "inline": true,
+	"replay": true, "replay-reader": true, "returns": true, "callsite": true, "search": true, "reveal": true, "frame-only": true, "trusted": true, "assume": true, "unroll": true, "inline": true,
 	"reads": true, "pure": true, "let": true, "assert": true, "nosafety": true,
 	"crash-invariant": true, "frame": true, "closure": true, "bound": true,
 }
